@@ -32,5 +32,5 @@ Definition run_spec (l obs : list tok) : list tok :=
   | None => bad_case
   | Some c =>
       let h := c_trace c in
-      check (negb (has_bad h)) "obs:unknown_event" ++ obs_consistent h obs ++ spec_c02 h
+      check (negb (has_bad h)) "obs:unknown_event" ++ obs_consistent h obs ++ spec_c02 h ++ c02_late_calls_prompt h
   end.
